@@ -774,7 +774,8 @@ func (u *Unmarshaler) processNamedFieldWithValue(fieldType reflect.Type, value r
 
 			options := opts.options()
 			if len(options) > 0 {
-				if !stringx.Contains(options, mapValue.(string)) {
+				// 带 string 选项的字段也接受 json.Number（其 Kind 同为 String），不能断言为 string
+				if !stringx.Contains(options, Repr(mapValue)) {
 					return fmt.Errorf(`错误：字段 "%s" 的值 "%s" 未定义在选项 "%v" 中`,
 						key, vp, options)
 				}
